@@ -196,7 +196,16 @@ def _sign(a):
     return (a > 0) - (a < 0)
 
 
+def _div(a, b):
+    try:
+        return a / b
+    except ZeroDivisionError:
+        # numpy semantics (errstate ignore): division by zero yields nan / inf instead of raising
+        return float('nan')
+
+
 _UFUNCS = {
+    _np.true_divide: _div,
     _np.equal: _eq, _np.not_equal: _ne, _np.less: _lt, _np.less_equal: _le,
     _np.greater: _gt, _np.greater_equal: _ge,
     _np.maximum: smax2, _np.minimum: smin2, _np.fmax: smax2, _np.fmin: smin2,
